@@ -29,12 +29,9 @@ expect_bigint = Fn(FE, "expect_bigint", impl="Value", slot="expr", ret="res", pr
                        C("ok_is_clean", "res is Ok ==> final(report).msgs() == old(report).msgs()", ["C03"]),
                    ])
 
-U_HDR = ("|x: &util::BigInt| -> (r: bool)\n"
-         "                    ensures size >= 1 ==> (r == !in_range_u(x.val(), size as nat))\n                { proof { if size >= 1 { lemma_min_size_range(x.val(), size as nat); } }")
-S_HDR = ("|x: &util::BigInt| -> (r: bool)\n"
-         "                    ensures size >= 1 ==> (r == !in_range_s(x.val(), size as nat))\n                { proof { if size >= 1 { lemma_min_size_range(x.val(), size as nat); vstd::arithmetic::power2::lemma_pow2_pos((size - 1) as nat); } }")
-I_HDR = ("|x: &util::BigInt| -> (r: bool)\n"
-         "                    ensures size >= 1 ==> (r == !in_range_i(x.val(), size as nat))\n                { proof { if size >= 1 { lemma_min_size_range(x.val(), size as nat); } }")
+def _hdr(t):
+    return ("|x: &util::BigInt| -> (r: bool)\n                    ensures size >= 1 ==> (r == !in_range_%s(x.val(), size as nat))\n               " % t,
+            "proof { if size >= 1 { lemma_min_size_range(x.val(), size as nat); vstd::arithmetic::power2::lemma_pow2_pos((size - 1) as nat); } }")
 
 RANGE = ("match res { Ok(expr::Value::Integer(b)) => in_range(typ, b.val()), Ok(expr::Value::FailedConstraint(_)) => true, _ => true }")
 
@@ -52,15 +49,11 @@ check_arg = Fn(
         C("err_is_loud", "res is Err ==> final(report).msgs() > old(report).msgs()", ["C03"]),
         C("ok_is_clean", "res is Ok ==> final(report).msgs() == old(report).msgs()", ["C03"]),
     ],
+    closures={1: _hdr("u"), 2: _hdr("s"), 3: _hdr("i")},
     rewrites=[
         Rewrite("value\n        .coallesce_to_integer()\n        .expect_bigint(report, span)?\n        .to_owned()",
                 "expr::verif_coallesced_bigint(&value, report, span)?", rule="R13",
                 why="vstd has no spec for Cow::deref: the chain is replaced by a prelude stub whose ASSUMED contract is the composition of coallesce_to_integer (assumed) and expect_bigint (proved in this unit)"),
-        Rewrite("|x| x.sign() == -1 ||\n                    x.min_size() > size)",
-                U_HDR + " x.sign() == -1 ||\n                    x.min_size() > size })", rule="R4", why="closure header with types and spec; expression body wrapped in braces"),
-        Rewrite("|x| (x.sign() == 0 && size == 0) ||\n                    (x.sign() == 1 && x.min_size() >= size) ||\n                    (x.sign() == -1 && x.min_size() > size))",
-                S_HDR + " (x.sign() == 0 && size == 0) ||\n                    (x.sign() == 1 && x.min_size() >= size) ||\n                    (x.sign() == -1 && x.min_size() > size) })", rule="R4", why="closure header; body wrapped in braces"),
-        Rewrite("|x| x.min_size() > size)", I_HDR + " x.min_size() > size })", rule="R4", why="closure header; body wrapped in braces"),
     ],
 )
 
